@@ -25,6 +25,9 @@ TParse == /\ IsEv("parse")
              Verdict(IF Judge(e, e.di, e.da) THEN "ok"
                      ELSE IF "D12" \in Dev /\ Judge(e, FlagsOf(e.cs, IdentLex), FlagsOf(e.cs, RegexLex)) THEN "D12"
                      ELSE "bad")
-TNext == TReset \/ TParse
+\* freshly parsed routes rendered for the first time by several goroutines at once: each rendering is the canonical
+\* string of its own route (the same as when rendered alone)
+TRenderConc == IsEv("renderconc") /\ Verdict(IF Tr[l].differing = 0 THEN "ok" ELSE "bad")
+TNext == TReset \/ TParse \/ TRenderConc
 TSpec == TInit /\ [][TNext]_tvars
 ====
